@@ -504,7 +504,36 @@ pub fn rw_rename(p: &Program, rng: &mut Rng) -> Option<(Program, Applied)> {
     }
     let b = rng.pick(&binders).clone();
     let mut ref_rename = None;
+    // A parameter may also be renamed to a name that other functions use for their parameters (not
+    // globally fresh, but capture-free in its own function): lexically the same program.
+    let reuse: Option<String> = match &b {
+        Target::Param(d, _) if rng.chance(1, 2) => {
+            let dd = &p.decls[*d];
+            let mut names: Vec<String> = Vec::new();
+            for (o, od) in p.decls.iter().enumerate() {
+                if o != *d {
+                    names.extend(od.params.iter().cloned());
+                }
+            }
+            names.retain(|n| {
+                let mut clash = dd.params.contains(n);
+                dd.rhs.visit(&mut |x| match x {
+                    E::Var { name, qual: None, .. } if name == n => clash = true,
+                    E::Rec { binder, .. } if binder == n => clash = true,
+                    _ => {}
+                });
+                !clash
+            });
+            if names.is_empty() {
+                None
+            } else {
+                Some(rng.pick(&names).clone())
+            }
+        }
+        _ => None,
+    };
     let new = match &b {
+        _ if reuse.is_some() => reuse.clone().unwrap(),
         Target::Decl(d) if p.decls[*d].is_ref() => {
             let n = format!("@zr{}", rng.below(100000));
             ref_rename = Some((p.decls[*d].name[1..].to_owned(), n[1..].to_owned()));
